@@ -48,6 +48,9 @@ type params struct {
 	Senders, Per int
 	Subs         []script
 	Relay        bool
+	// CancelEarly: the context is cancelled from its own goroutine while the registered senders
+	// are still sending (the tracer keeps delivering until every registered sender is done)
+	CancelEarly bool
 }
 
 func (p params) name() string {
@@ -58,6 +61,9 @@ func (p params) name() string {
 	r := ""
 	if p.Relay {
 		r = "relay/"
+	}
+	if p.CancelEarly {
+		r += "cancel-early/"
 	}
 	return fmt.Sprintf("C09/tracer/%ss%dx%d[%s]", r, p.Senders, p.Per, strings.Join(ss, ","))
 }
@@ -141,6 +147,9 @@ func body(p params) func() {
 				}()
 				reader(i, ch)
 			}()
+		}
+		if p.CancelEarly {
+			go cancel()
 		}
 		verifrt.WaitIdle()
 		// everything that can be delivered has been delivered; now shut down
@@ -285,6 +294,14 @@ func init() {
 			add(params{Senders: 2, Per: 2, Subs: []script{E(0), Lu(1, 0)}, Relay: true}, d(3))
 			add(params{Senders: 8, Per: 1, Subs: []script{E(0), Eu(4, 1), L(0), Lu(2, 2)}}, d(2))
 		}
+		// cancellation while registered senders are still sending: every early subscriber still
+		// sees every trace, in one order
+		for _, subs := range [][]script{{E(0), E(0)}, {E(0), E(2)}, {E(1), Eu(1, 0)}, {E(0), E(0), E(1)}} {
+			add(params{Senders: 2, Per: 2, Subs: subs, CancelEarly: true}, verifrt.Options{Bound: 2, UseCache: true})
+		}
+		// (not through a relay: what a relay still forwards once its context is cancelled is not
+		// a statement about one tracer's subscribers - it drops its backlog when the source
+		// tracer is done, on the unchanged tree too)
 		// engine clause: the causality grammar (the FlowTrace announcing new flows precedes the
 		// first trace of each of them, visit before leave, termination last) on engine runs of
 		// programs with forks of every kind, under schedules that preempt the forking flow
